@@ -88,6 +88,30 @@ func genNode(t *rapid.T) NodeCase {
 	case "fwfile":
 		n.FileName = rapid.SliceOfN(rapid.Byte(), 16, 16).Draw(t, "fwname")
 	}
+	if rapid.IntRange(0, 5).Draw(t, "structural_bytes_in_the_body") == 0 {
+		// field values whose bytes read like the format's own structure: the end-of-path node 7f ff 04 00, the
+		// end-of-instance node 7f 01 04 00, a node header. Inside a node body they are data.
+		mark := rapid.SampledFrom([]uint32{0x0004ff7f, 0x0004017f, 0x00180404, 0x002a0104}).Draw(t, "marker")
+		shift := uint(8 * rapid.IntRange(0, 4).Draw(t, "marker_at"))
+		switch n.Kind {
+		case "acpi":
+			if rapid.Bool().Draw(t, "in_uid") {
+				n.B = mark
+			} else {
+				n.A = mark
+			}
+		case "hd":
+			if rapid.Bool().Draw(t, "in_size") {
+				n.Size = uint64(mark) << shift
+			} else {
+				n.Start = uint64(mark) << shift
+			}
+		case "fwfile":
+			binary.LittleEndian.PutUint32(n.FileName[shift/8*3:], mark)
+		case "file":
+			n.Path += "\\" + string([]rune{rune(mark & 0xffff), rune(mark >> 16)}) + "x"
+		}
+	}
 	return n
 }
 
